@@ -15,7 +15,8 @@ def _decl_jobs(tier):
 
 PLANS['C01'] = dict(
     engine='decl', level='exploration', jobs=_decl_jobs,
-    minimums=lambda t: {'evaluations': 20000, 'histories_with_narrowing': 20, 'nlp': 20},
+    minimums=lambda t: {'evaluations': 20000, 'histories_with_narrowing': 20, 'nlp': 20, 'declarations_on_object': 20,
+                        'direct_declarations_with_class_specification': 100, 'factory_declarations_on_instances': 100},
     rule='Seeded random histories over generated interface DAGs and class DAGs (multiple inheritance): '
          'class creation with/without decorators, instance creation, implementer, implementer_only, '
          'classImplements, classImplementsOnly, classImplementsFirst, directlyProvides, alsoProvides, '
@@ -72,7 +73,8 @@ PLANS['C02'] = dict(
     engine='specgraph', level='exploration',
     jobs=lambda tier: cfg_jobs(tier, (12, 500), (16, 4000), [_DEFAULT]) + cfg_jobs(tier, (4, 400), (8, 3000), [_STRICT]),
     minimums=lambda t: {'pair_checks': 20000, 'rebasings': 200, 'rebasings_changing_indirect_dependent': 50,
-                        'twin_comparisons': 2000, 'dependents_collected': 5},
+                        'twin_comparisons': 2000, 'dependents_collected': 5, 'super_queries_between_rebasings': 50,
+                        'providedBy_asked_of_non_interface_specifications': 1000, 'falsy_interfaces': 50},
     rule='Random graphs of interfaces, plain Declarations, class declarations and instance declarations; random '
          '__bases__ reassignments (direct and through the declaration API) at any depth, leaf dependents dropped and '
          'collected; after every mutation every ordered pair of live specifications (+ root, empty declaration, foreign '
@@ -141,7 +143,9 @@ PLANS['C07'] = dict(
 PLANS['C08'] = dict(
     engine='registry', level='exploration', jobs=lambda tier: both(tier, (16, 600), (16, 6000)),
     minimums=lambda t: {'evaluations': 20000, 'valueerror_probes': 3000, 'keys_with_2plus_names': 50,
-                        'subscriber_calls_checked': 200, 'super_proxy_keys': 20, 'subscriber_results_falsy_not_none': 100},
+                        'subscriber_calls_checked': 200, 'super_proxy_keys': 20, 'subscriber_results_falsy_not_none': 100,
+                        'changes_between_rounds[registry]': 500, 'changes_between_rounds[class]': 100,
+                        'single_object_warmups_before_multi_keys': 100},
     rule='For a registry state and key, all nine entry points are called in a seeded order (each observed cold, '
          'warm-by-itself, warm-by-another) and compared with lookup()/subscriptions() of the same registry; recording '
          'factories check arguments (super proxies unwrapped) and None results; non-string names must raise ValueError.  '
